@@ -71,7 +71,9 @@ StepRec(e) == /\ Report(e, RecBad(e))
               /\ UNCHANGED <<par, two>>
 
 StepTwo(e) ==
-    LET bad == IF par.ev = "none" \/ OutOfRange(par) \/ ~ResidualsLeaveRoom(par) THEN {"Machinery:Domain"}
+    LET bad == IF par.ev = "none" THEN {"Machinery:NoPar"}
+               ELSE IF OutOfRange(par) THEN (IF e.outcome = "error" THEN {} ELSE {"TwoRejects"})   \* inadmissible parameters: any Sw
+               ELSE IF ~ResidualsLeaveRoom(par) THEN {"Machinery:Domain"}
                ELSE IF e.above THEN (IF e.outcome = "error" THEN {} ELSE {"TwoRejects"})
                ELSE (IF e.outcome = "ok" THEN {} ELSE {"TwoAccepts"})
                     \cup (IF e.outcome = "ok" /\ e.nrows # TwoPhaseRows THEN {"TwoRows"} ELSE {})
